@@ -305,78 +305,94 @@ TWIDDLE_FILLERS = ("twiddles::fill_bluesteins_twiddles",)
 COMPLEX_PRODUCTS = ("mul_complex",)
 
 
+def _taint_body(F, b, ret_tainted):
+    """Flow-insensitive taint of one body. Sources: calls of twiddle generators, calls of local
+    functions / closures whose return value is twiddle-derived, closure values whose body returns
+    twiddle-derived data (so `(..).map(|y| make_twiddle(y)).collect()` is tainted)."""
+    tainted = set()
+    nsrc = 0
+    for bi, t in b.calls():
+        c = F.callee_of(t)
+        if not c:
+            continue
+        p = c["p"]
+        if any(p == s or p.endswith("::" + s) or p.endswith(s) for s in TWIDDLE_SOURCES) or c.get("res", c["id"]) in ret_tainted:
+            tainted.add(t["d"][0])
+            nsrc += 1
+        if any(p == s for s in TWIDDLE_FILLERS):
+            for a in t["args"][:1]:
+                if "p" in a:
+                    r = b.root(a)
+                    tainted.add(a["p"][0])
+                    if r[0] in ("multi", "param"):
+                        tainted.add(r[1])
+                    else:
+                        tainted |= _base_locals(b, a)
+            nsrc += 1
+    for bi, si, n in b.iter_nodes():
+        if n["k"] == "=" and n["r"]["k"] == "agg" and n["r"].get("ak") == "closure" and n["r"]["id"] in ret_tainted:
+            tainted.add(n["p"][0])
+            nsrc += 1
+    if not nsrc:
+        return None, 0
+    changed = True
+    while changed:
+        changed = False
+        for bi, si, n in b.iter_nodes():
+            if n["k"] == "=":
+                dst = n["p"][0]
+                if dst in tainted:
+                    continue
+                if any(pl[0] in tainted for pl in _rvalue_places(n["r"])):
+                    tainted.add(dst)
+                    changed = True
+            elif n["k"] == "call":
+                if any("p" in a and a["p"][0] in tainted for a in n["args"]):
+                    dst = n["d"][0]
+                    if dst not in tainted and not _returns_scalar_index(F, b, n):
+                        tainted.add(dst)
+                        changed = True
+                    for a in n["args"]:
+                        if "p" in a and a["p"][0] not in tainted:
+                            t0 = b.ty(a["p"][0])
+                            if t0["k"] == "ref" and t0["m"]:
+                                for bl in _base_locals(b, a):
+                                    if bl not in tainted:
+                                        tainted.add(bl)
+                                        changed = True
+                                tainted.add(a["p"][0])
+                                changed = True
+    return tainted, nsrc
+
+
 def r_norecur(F, cfg):
     """No twiddle is produced from a product of twiddles (tables by recurrence accumulate O(eps*n))."""
     R = Result("R-NORECUR", "no value derived from a twiddle source is multiplied by another such value (complex x complex) at construction")
-    nsrc = 0
-    nfn = 0
-    nprod = 0
-    for b in sorted(F.bodies.values(), key=lambda x: x.id):
-        # taint sources in this body
-        tainted = set()
-        has_src = False
-        for bi, t in b.calls():
-            c = F.callee_of(t)
-            if not c:
+    bodies = sorted(F.bodies.values(), key=lambda x: x.id)
+    ret_tainted = set()
+    taints = {}
+    for _round in range(5):
+        grew = False
+        for b in bodies:
+            tainted, nsrc = _taint_body(F, b, ret_tainted)
+            if tainted is None:
                 continue
-            p = c["p"]
-            if any(p == s or p.endswith("::" + s) or p.endswith(s) for s in TWIDDLE_SOURCES):
-                tainted.add(t["d"][0])
-                has_src = True
-                nsrc += 1
-            if any(p == s for s in TWIDDLE_FILLERS):
-                for a in t["args"][:1]:
-                    if "p" in a:
-                        r = b.root(a)
-                        tainted.add(a["p"][0])
-                        if r[0] in ("multi", "param"):
-                            tainted.add(r[1])
-                        else:
-                            # mark the ultimate local the &mut points to
-                            tainted |= _base_locals(b, a)
-                has_src = True
-                nsrc += 1
-        if b.kind == "Closure":
-            # captured tainted values are handled in the parent (flow-insensitive union below)
-            pass
-        if not has_src:
+            taints[b.id] = (tainted, nsrc)
+            if 0 in tainted and b.id not in ret_tainted:
+                # only complex-valued / vector-valued results matter, not lengths
+                if not (b.ty(0)["k"] == "prim" and b.tys(0) in INT_TYPES + ("bool",)):
+                    ret_tainted.add(b.id)
+                    grew = True
+        if not grew:
+            break
+    nsrc = sum(v[1] for v in taints.values())
+    nfn = len(taints)
+    nprod = 0
+    for b in bodies:
+        if b.id not in taints:
             continue
-        nfn += 1
-        # flow-insensitive propagation to a fixpoint
-        changed = True
-        while changed:
-            changed = False
-            for bi, si, n in b.iter_nodes():
-                if n["k"] == "=":
-                    dst = n["p"][0]
-                    if dst in tainted:
-                        continue
-                    if any(pl[0] in tainted for pl in _rvalue_places(n["r"])):
-                        tainted.add(dst)
-                        changed = True
-                elif n["k"] == "call":
-                    if any("p" in a and a["p"][0] in tainted for a in n["args"]):
-                        c = F.callee_of(n)
-                        p = c["p"] if c else ""
-                        if _is_index_like(p):
-                            # usize-valued helpers do not carry twiddle values
-                            pass
-                        dst = n["d"][0]
-                        if dst not in tainted and not _returns_scalar_index(F, b, n):
-                            tainted.add(dst)
-                            changed = True
-                        # &mut arguments may receive tainted data
-                        for a in n["args"]:
-                            if "p" in a and a["p"][0] not in tainted:
-                                t0 = b.ty(a["p"][0])
-                                if t0["k"] == "ref" and t0["m"]:
-                                    for bl in _base_locals(b, a):
-                                        if bl not in tainted:
-                                            tainted.add(bl)
-                                            changed = True
-                                    tainted.add(a["p"][0])
-                                    changed = True
-        # sinks
+        tainted = taints[b.id][0]
+        # closures: captured twiddle-derived values of the parent are tainted as well
         for bi, t in b.calls():
             c = F.callee_of(t)
             if not c:
@@ -401,6 +417,7 @@ def r_norecur(F, cfg):
     R.metric("twiddle_source_calls", nsrc)
     R.metric("functions_with_sources", nfn)
     R.metric("complex_products_examined", nprod)
+    R.metric("twiddle_returning_functions", len(ret_tainted))
     return R
 
 
@@ -470,6 +487,19 @@ def r_fromf64(F, cfg):
                 n += 1
                 m = p.rsplit("::", 1)[1]
                 if m in ALLOWED_FROMPRIM and "FromPrimitive" in p:
+                    if m == "from_f64" and (F.closure_parent(b) or b).name != "twiddles::compute_twiddle":
+                        # outside the twiddle generator a from_f64 argument must be a fixed constant: a value
+                        # computed in f64 from run-time quantities (e.g. 1.0 / len as f64) bypasses the
+                        # element type's own arithmetic and is wrong for exact / extended-precision types
+                        e = b.expr(t["args"][0])
+                        dyn = [x for x in _walk(e) if isinstance(x, tuple) and x and x[0] in ("param", "multi", "field", "?")]
+                        dyn += [x for x in _walk(e) if isinstance(x, tuple) and x and x[0] == "call" and not x[1].startswith("std::f64::")]
+                        if dyn:
+                            R.violation("fromprim:%s:from_f64-of-runtime-value" % b.name, b.where(t),
+                                        "%s converts a run-time f64 expression %s with from_f64: only fixed constants (and twiddles in compute_twiddle) may enter that way; use the element type's own arithmetic on from_usize values" % (b.name, _show(e)))
+                            continue
+                        R.ok({"fn": b.name, "conversion": "from_f64 of the constant " + _show(e)}, nontrivial=True, sample_cap=6)
+                        continue
                     R.ok({"fn": b.name, "conversion": m}, nontrivial=False, sample_cap=6)
                 else:
                     R.violation("fromprim:%s:%s" % (b.name, m), b.where(t), "%s converts a constant with %s (only from_f64/from_usize are part of the contract)" % (b.name, p))
